@@ -813,6 +813,12 @@ def update_file(remote, local, verbose=False):
 
     re_whitespace = re.compile(r'\s+')
 
+    def unusable_index():
+        # type: () -> List[str]
+        if verbose:
+            print("update_file: could not interpret patch index file")
+        return download_file(remote, local)
+
     try:
         with urlopen(index_name) as index_url:
             index_fields = list(PackageFile(index_name, index_url))
@@ -840,10 +846,14 @@ def update_file(remote, local, verbose=False):
         local_hash = read_lines_sha1(lines)
         read_lines = read_lines_sha1
 
+    remote_hash = None
     for fields in index_fields:
         for (field, value) in fields:
             if field == prefix+'-Current':
-                (remote_hash, _) = re_whitespace.split(value)
+                current = re_whitespace.split(value.strip())
+                if len(current) != 2:
+                    return unusable_index()
+                remote_hash = current[0]
                 if local_hash == remote_hash:
                     if verbose:
                         print("update_file: local file is up-to-date")
@@ -854,7 +864,10 @@ def update_file(remote, local, verbose=False):
                 for entry in value.splitlines():
                     if entry == '':
                         continue
-                    (hist_hash, _, patch_name) = re_whitespace.split(entry)
+                    history = re_whitespace.split(entry.strip())
+                    if len(history) != 3:
+                        return unusable_index()
+                    (hist_hash, _, patch_name) = history
 
                     # After the first patch, we have to apply all
                     # remaining patches.
@@ -867,7 +880,10 @@ def update_file(remote, local, verbose=False):
                 for entry in value.splitlines():
                     if entry == '':
                         continue
-                    (patch_hash, _, patch_name) = re_whitespace.split(entry)
+                    patch = re_whitespace.split(entry.strip())
+                    if len(patch) != 3:
+                        return unusable_index()
+                    (patch_hash, _, patch_name) = patch
                     patch_hashes[patch_name] = patch_hash
                 continue
 
@@ -878,6 +894,11 @@ def update_file(remote, local, verbose=False):
         if verbose:
             print("update_file: could not find historic entry", local_hash)
         return download_file(remote, local)
+
+    if remote_hash is None or not all(
+            patch_name in patch_hashes for patch_name in patches_to_apply):
+        # the patches cannot be verified against this index
+        return unusable_index()
 
     for patch_name in patches_to_apply:
         if verbose:
